@@ -12,6 +12,7 @@ import (
 
 	"verif/engine"
 	"verif/ref/keytabfmt"
+	"verif/ref/krbmsg"
 	"verif/ref/rcrypto"
 	"verif/ref/simkdc"
 
@@ -53,6 +54,11 @@ type Opts struct {
 	LenientCRealm    bool          `json:"lenient_authenticator_crealm"`
 	FreshRenewKey    bool          `json:"kdc_issues_new_key_on_renewal"`
 	PasswordOverride string        `json:"-"` // C20: a marker password instead of the default one
+	// UserInstance, when set, makes the client principal testuser1/<instance>; with keytab credentials the keytab
+	// then also holds a newer entry for sibling/<instance> with another key (the usual host keytab layout)
+	UserInstance string `json:"user_instance,omitempty"`
+	// UDPTooBig: every KDC answers KRB_ERR_RESPONSE_TOO_BIG over UDP, so that every exchange ends up on TCP
+	UDPTooBig bool `json:"udp_answers_response_too_big,omitempty"`
 }
 
 // DefaultOpts is the baseline configuration.
@@ -71,6 +77,8 @@ type World struct {
 	Client  *client.Client
 	Keytab  []byte
 	KDCAddr []string
+	// SiblingKeys: keys of sibling/<instance> held by the client keytab next to the user's (UserInstance only)
+	SiblingKeys []simkdc.Key
 }
 
 func chainRealm(i int) string { return fmt.Sprintf("R%d.GOKRB5", i) }
@@ -130,7 +138,7 @@ func ExpectFor(o Opts) simkdc.Expect {
 		tgs |= simkdc.FlagRenewable
 	}
 	return simkdc.Expect{Check: true, ETypesAS: o.ETypes, ETypesTGS: o.ETypes, ASOptions: as, TGSOptions: tgs, TicketLifetime: o.TicketLifetime, RenewLifetime: o.RenewLifetime,
-		NoAddresses: true, Skew: 5 * time.Minute, ClientName: []string{User}}
+		NoAddresses: true, Skew: 5 * time.Minute, ClientName: UserNames(o)}
 }
 
 // New builds the world: KDCs, network endpoints, configuration and client.
@@ -152,13 +160,18 @@ func New(o Opts) *World {
 		if o.PreAuth == "assumed" {
 			params = nil // without a hint from the KDC the client can only use the default parameters
 		}
-		w.KDC.AddPasswordPrincipal([]string{User}, w.PasswordValue(), o.ETypes, o.Salt, params)
+		w.KDC.AddPasswordPrincipal(UserNames(o), w.PasswordValue(), o.ETypes, o.Salt, params)
 	} else {
-		p := w.KDC.AddKeyPrincipal([]string{User}, o.ETypes)
+		p := w.KDC.AddKeyPrincipal(UserNames(o), o.ETypes)
 		var items []keytabfmt.Item
 		for _, k := range p.Keys {
 			kv := uint32(k.KVNO)
-			items = append(items, keytabfmt.Item{Entry: &keytabfmt.Entry{Components: []string{User}, Realm: Realm, NameType: 1, Timestamp: 1000, KVNO8: uint8(k.KVNO), KVNO32: &kv, KeyType: uint16(k.Etype), Key: k.Value}})
+			items = append(items, keytabfmt.Item{Entry: &keytabfmt.Entry{Components: UserNames(o), Realm: Realm, NameType: 1, Timestamp: 1000, KVNO8: uint8(k.KVNO), KVNO32: &kv, KeyType: uint16(k.Etype), Key: k.Value}})
+			if o.UserInstance != "" {
+				sib := w.KDC.RandKey(k.Etype)
+				w.SiblingKeys = append(w.SiblingKeys, simkdc.Key{Etype: k.Etype, KVNO: k.KVNO, Value: sib})
+				items = append(items, keytabfmt.Item{Entry: &keytabfmt.Entry{Components: []string{"sibling", o.UserInstance}, Realm: Realm, NameType: 1, Timestamp: 2000, KVNO8: uint8(k.KVNO), KVNO32: &kv, KeyType: uint16(k.Etype), Key: sib}})
+			}
 		}
 		w.Keytab = keytabfmt.Write(2, items)
 	}
@@ -208,10 +221,24 @@ func New(o Opts) *World {
 	for i, k := range w.Chain {
 		reg(fmt.Sprintf("kdc.r%d.gokrb5:88", i+1), k)
 	}
+	if o.UDPTooBig {
+		tooBig := krbmsg.KRBError{PVNO: 5, MsgType: 30, STime: T0, Code: 52, Realm: Realm, SName: krbmsg.PrincipalName{Type: 2, Names: []string{"krbtgt", Realm}}}.Encode()
+		for _, a := range append(append([]string{}, w.KDCAddr...), "kdc.other.gokrb5:88") {
+			vnet.Register("udp", a, &vnet.Endpoint{Behaviour: vnet.Answer, Handler: func(string, string, []byte) []byte { return tooBig }})
+		}
+	}
 	w.Conf = ConfText(o)
 	w.Config = ParseCached(w.Conf)
 	w.Client = w.NewClient()
 	return w
+}
+
+// UserNames returns the components of the client principal.
+func UserNames(o Opts) []string {
+	if o.UserInstance != "" {
+		return []string{User, o.UserInstance}
+	}
+	return []string{User}
 }
 
 // PasswordValue is the password of the world's user.
@@ -230,13 +257,13 @@ func (w *World) NewClient(extra ...func(*client.Settings)) *client.Client {
 	}
 	sets = append(sets, extra...)
 	if w.Opts.Cred == "password" {
-		return client.NewWithPassword(User, Realm, w.PasswordValue(), w.Config, sets...)
+		return client.NewWithPassword(strings.Join(UserNames(w.Opts), "/"), Realm, w.PasswordValue(), w.Config, sets...)
 	}
 	kt := keytab.New()
 	if err := kt.Unmarshal(w.Keytab); err != nil {
-		engine.Fatal("world keytab does not load: %v", err)
+		engine.FailValid("keytab.Unmarshal(client keytab)", err)
 	}
-	return client.NewWithKeytab(User, Realm, kt, w.Config, sets...)
+	return client.NewWithKeytab(strings.Join(UserNames(w.Opts), "/"), Realm, kt, w.Config, sets...)
 }
 
 // AllKDCs lists every KDC model of the world.
@@ -278,7 +305,7 @@ func ParseCached(text string) *config.Config {
 		var err error
 		c, err = config.NewFromString(text)
 		if err != nil {
-			engine.Fatal("world configuration does not load: %v\n%s", err, text)
+			engine.FailValid("config.NewFromString(world configuration)", err)
 		}
 		confCache[text] = c
 	}
